@@ -1142,13 +1142,13 @@ func ImportToPath(pkgPath, pkgName string) string {
 }
 
 func (decl ImportDecl) CoqDecl() string {
-	coqPath := pathToCoqPath(decl.Path)
-	coqImportPath := strings.ReplaceAll(path.Dir(coqPath), "/", ".")
-	name := path.Base(decl.Path)
+	// every element of the import path is mapped, including the last one
+	// (which names the file, see ImportToPath)
+	coqImportPath := strings.ReplaceAll(pathToCoqPath(decl.Path), "/", ".")
 	if decl.Trusted {
-		return fmt.Sprintf("From Perennial.goose_lang.trusted Require Import %s.%s.", coqImportPath, name)
+		return fmt.Sprintf("From Perennial.goose_lang.trusted Require Import %s.", coqImportPath)
 	} else {
-		return fmt.Sprintf("From Goose Require %s.%s.", coqImportPath, name)
+		return fmt.Sprintf("From Goose Require %s.", coqImportPath)
 	}
 }
 
